@@ -1,6 +1,7 @@
 //! C11: the real bigWig / bigBed writers run under many configurations (worker threads, runtime
 //! flavour, channel capacity, in-memory vs temporary-file staging, serial vs per-chromosome-parallel
-//! source, seeded delays at the hand-off points); every sink must hold the reference run's bytes.
+//! source, seeded delays at the hand-off points); every sink must hold the reference run's bytes, and the
+//! reference bytes of an uncompressed file (bigWig and bigBed) are printed for comparison with the writer model.
 //! Case / output format: /verif/coq/theories/Model/Entry_C11.v.
 //! Extra kinds used by the converter checks of tools/vlib/props/C11.py:
 //!   (10 opts sizes items path)  write a bigWig to the file `path`   -> (0) | (1 code)
@@ -11,6 +12,7 @@ use bigtools::beddata::{BedParserParallelStreamingIterator, BedParserStreamingIt
 use bigtools::utils::verif_delay::set_delay_seed;
 use bigtools::{BBIDataSource, BBIProcessError, BedEntry, BigBedWrite, BigWigWrite, Value};
 use bt_harness::bbi::{bw_items, classify_err, get_opts, get_sizes, runtime, write_options, Opts, SharedSink};
+use bt_harness::bed::classify_bed_err;
 use bt_harness::{a, sl, S};
 use std::collections::HashMap;
 use std::fs::File;
@@ -57,10 +59,11 @@ fn text_input(lines: &[(String, String)]) -> TextInput {
     TextInput { _dir: dir, path, index }
 }
 
-fn finish<E: std::error::Error>(r: Result<(), BBIProcessError<E>>, sink: &SharedSink) -> Outcome {
+fn finish<E: std::error::Error>(r: Result<(), BBIProcessError<E>>, sink: &SharedSink, bed: bool) -> Outcome {
     match r {
         Ok(()) => Outcome::Written(sink.bytes()),
-        Err(e) => Outcome::Refused(classify_err(&e)),
+        // class codes of Model/BigWigWrite.v / Model/BigBedWrite.v (bigBed adds 43 autoSql, 80 options)
+        Err(e) => Outcome::Refused(if bed { classify_bed_err(&e) } else { classify_err(&e) }),
     }
 }
 
@@ -83,7 +86,7 @@ where
             Err(e) => Err(e),
         }
     };
-    finish(r, &sink)
+    finish(r, &sink, false)
 }
 fn bb_with<V, F>(two_pass: bool, o: &Opts, cfg: &Cfg, sizes: &HashMap<String, u32>, make: F) -> Outcome
 where
@@ -104,7 +107,7 @@ where
             Err(e) => Err(e),
         }
     };
-    finish(r, &sink)
+    finish(r, &sink, true)
 }
 
 /// chromosome offsets: computed by the harness (source 2) or by the library's indexer (source 3)
@@ -268,7 +271,9 @@ fn run(c: &S) -> S {
         .collect();
     match reference {
         Outcome::Written(bytes) => {
-            let file_s = if o.compress || kind >= 2 { S::L(vec![]) } else { S::from_bytes(&bytes) };
+            // the bytes of an uncompressed file are compared with the writer model's (bigWig: Model/BigWigWrite.v,
+            // bigBed: Model/BigBedWrite.v)
+            let file_s = if o.compress { S::L(vec![]) } else { S::from_bytes(&bytes) };
             sl![a(0), file_s, S::L(ds)]
         }
         Outcome::Refused(code) => sl![a(1), a(code), S::L(ds)],
